@@ -113,6 +113,12 @@ CHECKS = {
    text="57 productions (expression->expression, expression->query, query->expression, query->query, table-reference forms) under 18 statement contexts. A case is a kind-consistent cycle of productions repeated to depth d. Oracle: the same chain at depth 2 and 12 must be accepted (otherwise the family is outside the accepted language and is listed, not reported); at d > MaxRecursionDepth every entry point returns an error; bracket-free continuations (UNION ALL chains) need not be rejected but must survive; depths >= 20000 up to the largest the size/token limits allow run in a child under debug.SetMaxStack(32 MiB), which must survive. limit_over_history: sequences of towers on ONE parser (reused, pooled, recovery script) must get the fresh-parser verdict each time. size_and_token_limits: MaxInputSize-1/+0/+1 bytes in five shapes and MaxTokens-1/+0/+1 tokens in three layouts x six kinds of trailing bytes: E1006/E1007 exactly when over the limit, through four entry points.",
    note="Trusted: the catalogue was built by reading the parser's recursive call paths and cannot be proved complete (DESIGN.md section 7); a level is one production application, unparenthesised junctions are parenthesised so the count is conservative; serialisers are outside the stack cap because they legitimately recurse on tree depth.",
    design="4/C02"),
+ "C10": dict(
+   technique="property-based testing of concurrent rounds under the race detector: generated workloads and per-goroutine operation plans run in a -race child with a spin-barrier release, checked against a sequential oracle table and exact metrics accounting",
+   level="exploration",
+   text="A case is a workload of 6-30 generated inputs of distinct sizes and a plan of 2-64 goroutines x 1-12 steps over 20 operations (tokenize x2, five parse entry points, recovery, three formatters, extract, two scanners, lint, keyword-suggestion cache, metrics.GetStats, SetSpan/GetSpan on own nodes, direct metrics.Record*), GOMAXPROCS in {1,2,4,16}, optional Gosched between steps; a quarter of the plans are metrics-focused (1-2 recording steps per goroutine released together, 60 rounds). Phase 1 computes every (operation, input) answer and its metrics delta sequentially (and checks the answer is reproducible); phase 2 runs 3-60 rounds with metrics.Reset between them. Oracles: each concurrent result equals the sequential one; the child (GORACE=halt_on_error=1) is not ended by a race report or fatal error; after quiescence operation/error/byte/parse/pool counters, ErrorsByType, MinQuerySize and MaxQuerySize equal the sums/extremes of the sequential deltas.",
+   note="Trusted: the Go scheduler samples interleavings (not enumerated; DESIGN.md section 7); the race detector's happens-before model; replay of a schedule-dependent failure re-runs the round rather than the schedule.",
+   design="4/C10"),
 }
 
 def main():
